@@ -69,6 +69,16 @@ def check_case(ctx, spec):
     except LookupError:
         ctx.count('skipped_not_fully_connected')
         return
+    if assets is not None and len(listed) > 1:
+        # an earlier compilation of the same segment in this process, against another accessor (other generation, the
+        # states stored in another order): the compilation below must load through ITS accessor only
+        from forml.io import asset as assetmod
+
+        ctx.count('compiled_before_with_other_accessor')
+        try:
+            flow.compile(built.segment, assetmod.State(graphgen.Generation(spec['assets']['prev'], len(listed)), listed[::-1]))
+        except Exception:  # pylint: disable=broad-except
+            pass
     try:
         symbols = flow.compile(built.segment, assets)
     except Exception as err:  # pylint: disable=broad-except
